@@ -1560,4 +1560,849 @@ theorem vcn_sound {H : HashFn} (hk : HashOK H) {L : List NsHash} {root : NsHash}
         · cases h
 
 
+/-! ## Relative collision-freeness (`HashOKOn`): ports of the hash-dependent lemmas -/
+
+/-- inputs hashed when a proof tree is evaluated -/
+def PT.inputs (H : HashFn) (ign : Bool) : PT → List Bytes
+  | .leaf _ => []
+  | .node l r =>
+    l.inputs H ign ++ r.inputs H ign ++
+      (match l.eval H ign, r.eval H ign with
+       | .ok a, .ok b => [nodeInput a b]
+       | _, _ => [])
+
+/-- the inputs of one step of `check_range_proof_inner`, from the data `inner_step` provides -/
+theorem innerInputs_step {H : HashFn} {ign : Bool} {fuel : Nat} {X P : List NsHash} {s size off : Nat}
+    {h right left : NsHash} {X1 P1 X2 P2 : List NsHash} (h0 : X.length + s ≠ 0)
+    (hR : if X.length + s - 1 ≥ nextSmallerPo2 size + off then
+         (if size - nextSmallerPo2 size = 1 then takeLast? X = some (right, X1) ∧ P1 = P
+          else checkRangeProofInner H ign fuel X P s (size - nextSmallerPo2 size) (off + nextSmallerPo2 size) = .ok (right, X1, P1))
+       else takeLast? P = some (right, P1) ∧ X1 = X)
+    (hL : if s < nextSmallerPo2 size + off then
+         (if nextSmallerPo2 size = 1 then takeLast? X1 = some (left, X2) ∧ P2 = P1
+          else checkRangeProofInner H ign fuel X1 P1 s (nextSmallerPo2 size) off = .ok (left, X2, P2))
+       else takeLast? P1 = some (left, P2) ∧ X2 = X1)
+    (hn : hashNodes H ign left right = .ok h) :
+    innerInputs H ign (fuel + 1) X P s size off =
+      (if X.length + s - 1 ≥ nextSmallerPo2 size + off then
+         (if size - nextSmallerPo2 size = 1 then []
+          else innerInputs H ign fuel X P s (size - nextSmallerPo2 size) (off + nextSmallerPo2 size))
+       else []) ++
+      (if s < nextSmallerPo2 size + off then
+         (if nextSmallerPo2 size = 1 then [] else innerInputs H ign fuel X1 P1 s (nextSmallerPo2 size) off)
+       else []) ++ [nodeInput left right] := by
+  conv => lhs; unfold innerInputs
+  simp only [h0, ↓reduceIte]
+  by_cases c1 : X.length + s - 1 ≥ nextSmallerPo2 size + off
+  · (try simp only [c1, ↓reduceIte] at hR); (try simp only [c1, ↓reduceIte])
+    by_cases c2 : size - nextSmallerPo2 size = 1
+    · (try simp only [c2, ↓reduceIte] at hR); (try simp only [c2, ↓reduceIte])
+      obtain ⟨hr1, rfl⟩ := hR
+      simp only [hr1]
+      by_cases d1 : s < nextSmallerPo2 size + off
+      · (try simp only [d1, ↓reduceIte] at hL); (try simp only [d1, ↓reduceIte])
+        by_cases d2 : nextSmallerPo2 size = 1
+        · (try simp only [d2, ↓reduceIte] at hL); (try simp only [d2, ↓reduceIte])
+          simp only [hL.1]
+        · (try simp only [d2, ↓reduceIte] at hL); (try simp only [d2, ↓reduceIte])
+          simp only [hL]
+      · (try simp only [d1, ↓reduceIte] at hL); (try simp only [d1, ↓reduceIte])
+        simp only [hL.1]
+    · (try simp only [c2, ↓reduceIte] at hR); (try simp only [c2, ↓reduceIte])
+      simp only [hR]
+      by_cases d1 : s < nextSmallerPo2 size + off
+      · (try simp only [d1, ↓reduceIte] at hL); (try simp only [d1, ↓reduceIte])
+        by_cases d2 : nextSmallerPo2 size = 1
+        · (try simp only [d2, ↓reduceIte] at hL); (try simp only [d2, ↓reduceIte])
+          simp only [hL.1]
+        · (try simp only [d2, ↓reduceIte] at hL); (try simp only [d2, ↓reduceIte])
+          simp only [hL]
+      · (try simp only [d1, ↓reduceIte] at hL); (try simp only [d1, ↓reduceIte])
+        simp only [hL.1]
+  · (try simp only [c1, ↓reduceIte] at hR); (try simp only [c1, ↓reduceIte])
+    obtain ⟨hr1, rfl⟩ := hR
+    simp only [hr1]
+    by_cases d1 : s < nextSmallerPo2 size + off
+    · (try simp only [d1, ↓reduceIte] at hL); (try simp only [d1, ↓reduceIte])
+      by_cases d2 : nextSmallerPo2 size = 1
+      · (try simp only [d2, ↓reduceIte] at hL); (try simp only [d2, ↓reduceIte])
+        simp only [hL.1]
+      · (try simp only [d2, ↓reduceIte] at hL); (try simp only [d2, ↓reduceIte])
+        simp only [hL]
+    · (try simp only [d1, ↓reduceIte] at hL); (try simp only [d1, ↓reduceIte])
+      simp only [hL.1]
+
+def FrontierOKOn (H : HashFn) (ign : Bool) (fuel : Nat) (X P : List NsHash) (s size off : Nat)
+    (h : NsHash) (X' P' : List NsHash) (I : List Bytes) : Prop :=
+  ∃ (t : PT) (PL XS PR : List NsHash), X = X' ++ XS ∧ P = P' ++ PL ++ PR ∧
+    t.frontier = PL ++ XS ++ PR ∧ t.eval H ign = .ok h ∧
+    XS.length = (X.length + s - 1) - max s off + 1 ∧
+    PR.length = nRight fuel (X.length + s - 1 - off) size ∧
+    PL.length = (if off ≤ s then nLeft fuel (s - off) size else 0) ∧
+    ∀ y ∈ t.inputs H ign, y ∈ I
+
+theorem frontier_child_on {H : HashFn} {ign : Bool} {f : Nat}
+    (ih : ∀ {X P : List NsHash} {s size off : Nat} {h : NsHash} {X' P' : List NsHash},
+      2 ≤ size → off ≤ X.length + s - 1 → X.length + s - 1 < off + size → s < off + size → 1 ≤ X.length →
+      checkRangeProofInner H ign f X P s size off = .ok (h, X', P') → FrontierOKOn H ign f X P s size off h X' P' (innerInputs H ign f X P s size off))
+    {X P : List NsHash} {s csize coff : Nat} {h : NsHash} {X' P' : List NsHash}
+    (hc1 : 1 ≤ csize) (h1 : coff ≤ X.length + s - 1) (h2 : X.length + s - 1 < coff + csize) (h3 : s < coff + csize)
+    (h4 : 1 ≤ X.length) (hc : ChildRes H ign f X P s csize coff h X' P') :
+    FrontierOKOn H ign f X P s csize coff h X' P'
+      (if csize = 1 then [] else innerInputs H ign f X P s csize coff) := by
+  unfold ChildRes at hc
+  by_cases hcs : csize = 1
+  · subst hcs
+    simp only [↓reduceIte] at hc
+    obtain ⟨htl, rfl⟩ := hc
+    have hx := takeLast?_some htl
+    refine ⟨.leaf h, [], [h], [], hx, by simp, by simp [PT.frontier], rfl, ?_, by simp [nRight_one], ?_,
+      by intro y hy; simp [PT.inputs] at hy⟩
+    · simp only [List.length_singleton]
+      have : max s coff = coff := by omega
+      rw [this]; omega
+    · simp [nLeft_one]
+  · simp only [hcs, ↓reduceIte] at hc
+    simp only [hcs, ↓reduceIte]
+    exact ih (by omega) h1 h2 h3 h4 hc
+
+theorem frontier_inner_on {H : HashFn} {ign : Bool} : ∀ (fuel : Nat) {X P : List NsHash} {s size off : Nat}
+    {h : NsHash} {X' P' : List NsHash},
+    2 ≤ size → off ≤ X.length + s - 1 → X.length + s - 1 < off + size → s < off + size → 1 ≤ X.length →
+    checkRangeProofInner H ign fuel X P s size off = .ok (h, X', P') →
+    FrontierOKOn H ign fuel X P s size off h X' P' (innerInputs H ign fuel X P s size off) := by
+  intro fuel
+  induction fuel with
+  | zero => intro X P s size off h X' P' _ _ _ _ _ e; simp [checkRangeProofInner] at e
+  | succ f ih =>
+    intro X P s size off h X2 P2 hsz h1 h2 h3 h4 e
+    obtain ⟨m, hm, hmlt, hmle⟩ := nextSmallerPo2_spec size hsz
+    have hsp1 : 1 ≤ nextSmallerPo2 size := by rw [hm]; exact Nat.one_le_two_pow
+    have hspl : nextSmallerPo2 size < size := by rw [hm]; exact hmlt
+    obtain ⟨hne0, right, X1, P1, left, hR, hL, hn⟩ := inner_step e
+    have hI := innerInputs_step hne0 hR hL hn
+    have hsz1 : ¬ (size ≤ 1) := by omega
+    by_cases cA : X.length + s - 1 ≥ nextSmallerPo2 size + off
+    · -- the right child overlaps the range
+      simp only [cA, ↓reduceIte] at hR
+      have hchildR : ChildRes H ign f X P s (size - nextSmallerPo2 size) (off + nextSmallerPo2 size) right X1 P1 := by
+        unfold ChildRes; exact hR
+      obtain ⟨tR, PLr, XSr, PRr, hX, hP, hfr, hev, hxs, hpr, hpl, hin⟩ :=
+        frontier_child_on ih (by omega) (by omega) (by omega) (by omega) h4 hchildR
+      by_cases cL : s < nextSmallerPo2 size + off
+      · -- … and so does the left child
+        simp only [cL, ↓reduceIte] at hL
+        have hnl : ¬ (off + nextSmallerPo2 size ≤ s) := by omega
+        simp only [hnl, ↓reduceIte] at hpl
+        have hPLr : PLr = [] := List.eq_nil_of_length_eq_zero hpl
+        subst hPLr
+        have hmax : max s (off + nextSmallerPo2 size) = off + nextSmallerPo2 size := by omega
+        rw [hmax] at hxs
+        have hXlen : X.length = X1.length + XSr.length := by rw [hX]; simp
+        have hX1 : X1.length + s - 1 = off + nextSmallerPo2 size - 1 := by omega
+        have hX1pos : 1 ≤ X1.length := by omega
+        have hchildL : ChildRes H ign f X1 P1 s (nextSmallerPo2 size) off left X2 P2 := by
+          unfold ChildRes; exact hL
+        obtain ⟨tL, PLl, XSl, PRl, hX', hP', hfr', hev', hxs', hpr', hpl', hin'⟩ :=
+          frontier_child_on ih hsp1 (by omega) (by omega) (by omega) hX1pos hchildL
+        have hPRl : PRl = [] := by
+          apply List.eq_nil_of_length_eq_zero
+          rw [hpr', hX1]
+          have : off + nextSmallerPo2 size - 1 - off = nextSmallerPo2 size - 1 := by omega
+          rw [this, hm]; exact nRight_last f m
+        subst hPRl
+        refine ⟨.node tL tR, PLl, XSl ++ XSr, PRr, ?_, ?_, ?_, ?_, ?_, ?_, ?_, ?_⟩
+        · rw [hX, hX']; simp
+        · rw [hP, hP']; simp
+        · simp [PT.frontier, hfr, hfr']
+        · simp [PT.eval, hev, hev', hn]
+        · simp only [List.length_append, hxs, hxs', hX1]; omega
+        · rw [hpr]
+          conv => rhs; unfold nRight
+          have : X.length + s - 1 - off ≥ nextSmallerPo2 size := by omega
+          simp only [hsz1, ↓reduceIte, this]
+          congr 1; omega
+        · rw [hpl']
+          by_cases ho : off ≤ s
+          · simp only [ho, ↓reduceIte]
+            conv => rhs; unfold nLeft
+            have : ¬ (s - off ≥ nextSmallerPo2 size) := by omega
+            simp only [hsz1, ↓reduceIte, this]
+          · simp [ho]
+        · intro y hy
+          rw [hI]
+          simp only [PT.inputs, hev, hev', List.mem_append, List.mem_singleton] at hy
+          have hcA : X.length + s - 1 ≥ nextSmallerPo2 size + off := cA
+          simp only [hcA, cL, ↓reduceIte]
+          rcases hy with (hy | hy) | hy
+          · exact List.mem_append_left _ (List.mem_append_right _ (hin' y hy))
+          · exact List.mem_append_left _ (List.mem_append_left _ (hin y hy))
+          · rw [hy]; simp
+      · -- the left child is a sibling
+        simp only [cL, ↓reduceIte] at hL
+        obtain ⟨htl, rfl⟩ := hL
+        have hP1 := takeLast?_some htl
+        have hge : off + nextSmallerPo2 size ≤ s := by omega
+        simp only [hge, ↓reduceIte] at hpl
+        have hmax : max s (off + nextSmallerPo2 size) = s := by omega
+        rw [hmax] at hxs
+        have hXlen : X.length = X2.length + XSr.length := by rw [hX]; simp
+        have hX1nil : X2 = [] := List.eq_nil_of_length_eq_zero (by omega)
+        refine ⟨.node (.leaf left) tR, left :: PLr, XSr, PRr, hX, ?_, ?_, ?_, ?_, ?_, ?_, ?_⟩
+        · rw [hP, hP1]; simp
+        · simp [PT.frontier, hfr]
+        · simp [PT.eval, hev, hn]
+        · have : max s off = s := by omega
+          rw [this]; omega
+        · rw [hpr]
+          conv => rhs; unfold nRight
+          have : X.length + s - 1 - off ≥ nextSmallerPo2 size := by omega
+          simp only [hsz1, ↓reduceIte, this]
+          congr 1; omega
+        · have ho : off ≤ s := by omega
+          simp only [ho, ↓reduceIte, List.length_cons, hpl]
+          conv => rhs; unfold nLeft
+          have : s - off ≥ nextSmallerPo2 size := by omega
+          simp only [hsz1, ↓reduceIte, this]
+          have e1 : s - (off + nextSmallerPo2 size) = s - off - nextSmallerPo2 size := by omega
+          rw [e1]; omega
+        · intro y hy
+          rw [hI]
+          simp only [PT.inputs, PT.eval, hev, List.mem_append, List.mem_singleton, List.nil_append, List.not_mem_nil, false_or] at hy
+          have hcA : X.length + s - 1 ≥ nextSmallerPo2 size + off := cA
+          simp only [hcA, cL, ↓reduceIte, List.append_nil]
+          rcases hy with hy | hy
+          · exact List.mem_append_left _ (hin y hy)
+          · rw [hy]; simp
+    · -- the right child is a sibling; the left child contains the whole remaining range
+      simp only [cA, ↓reduceIte] at hR
+      obtain ⟨htl, hx⟩ := hR
+      have hx' := hx.symm
+      subst hx'
+      have hP1 := takeLast?_some htl
+      have cL : s < nextSmallerPo2 size + off := by omega
+      simp only [cL, ↓reduceIte] at hL
+      have hchildL : ChildRes H ign f X P1 s (nextSmallerPo2 size) off left X2 P2 := by
+        unfold ChildRes; exact hL
+      obtain ⟨tL, PLl, XSl, PRl, hX', hP', hfr', hev', hxs', hpr', hpl', hin'⟩ :=
+        frontier_child_on ih hsp1 h1 (by omega) (by omega) h4 hchildL
+      refine ⟨.node tL (.leaf right), PLl, XSl, PRl ++ [right], hX', ?_, ?_, ?_, hxs', ?_, ?_, ?_⟩
+      · rw [hP1, hP']; simp
+      · simp [PT.frontier, hfr']
+      · simp [PT.eval, hev', hn]
+      · simp only [List.length_append, List.length_singleton, hpr']
+        conv => rhs; unfold nRight
+        have : ¬ (X.length + s - 1 - off ≥ nextSmallerPo2 size) := by omega
+        simp only [hsz1, ↓reduceIte, this]; omega
+      · rw [hpl']
+        by_cases ho : off ≤ s
+        · simp only [ho, ↓reduceIte]
+          conv => rhs; unfold nLeft
+          have : ¬ (s - off ≥ nextSmallerPo2 size) := by omega
+          simp only [hsz1, ↓reduceIte, this]
+        · simp [ho]
+      · intro y hy
+        rw [hI]
+        simp only [PT.inputs, PT.eval, hev', List.mem_append, List.mem_singleton, List.append_nil] at hy
+        simp only [cA, cL, ↓reduceIte, List.nil_append]
+        rcases hy with hy | hy
+        · exact List.mem_append_left _ (hin' y hy)
+        · rw [hy]; simp
+
+
+
+/-- **What `check_range_proof` evaluates**: when it accepts a non-trivial proof it has evaluated a proof tree whose
+    frontier is exactly (the first `popcount(start)` proof nodes) ++ (all the leaves) ++ (ALL the remaining proof nodes):
+    `compute_tree_size` makes the recursion consume every proof node. -/
+theorem checkRangeProof_frontier_on {H : HashFn} {ign : Bool} {root : NsHash} {X P : List NsHash} {s : Nat}
+    (hX : 1 ≤ X.length) (hnt : ¬ (X.length = 1 ∧ P = [])) (hu : s + X.length ≤ U32_MAX + 1)
+    (h : checkRangeProof H ign root X P s = .ok ()) :
+    computeNumLeftSiblings s ≤ P.length ∧
+    ∃ t : PT, t.frontier = P.take (computeNumLeftSiblings s) ++ X ++ P.drop (computeNumLeftSiblings s) ∧
+      t.eval H ign = .ok root ∧ ∀ y ∈ t.inputs H ign, y ∈ proofInputs H ign X P s := by
+  unfold checkRangeProof at h
+  have h0 : ¬ (X.length = 0) := by omega
+  simp only [h0, ↓reduceIte] at h
+  have hnt' : ¬ (X.length = 1 ∧ P.isEmpty = true) := by
+    intro hc; exact hnt ⟨hc.1, by simpa using hc.2⟩
+  simp only [hnt', ↓reduceIte] at h
+  split at h
+  · cases h
+  · rename_i hnl
+    refine ⟨by omega, ?_⟩
+    split at h
+    · cases h
+    · rename_i T hts
+      split at h
+      · cases h
+      · rename_i computed X' P' hin
+        split at h
+        · rename_i heq
+          have heq' : computed = root := by simpa using heq
+          subst heq'
+          have hge := computeTreeSize_ge hts
+          have hT2 : 2 ≤ T := by
+            by_cases h2 : 2 ≤ X.length
+            · omega
+            · have hx1 : X.length = 1 := by omega
+              have hP : P ≠ [] := fun hp => hnt ⟨hx1, hp⟩
+              by_cases hs0 : s = 0
+              · subst hs0
+                have hn0 : computeNumLeftSiblings 0 = 0 := rfl
+                rw [hn0, hx1] at hts
+                have : 1 ≤ P.length := by
+                  cases P with
+                  | nil => exact absurd rfl hP
+                  | cons a b => simp
+                exact computeTreeSize_ge_two (by omega) hts
+              · omega
+          obtain ⟨t, PL, XS, PR, hXe, hPe, hfr, hev, hxs, hpr, hpl, hinp⟩ :=
+            frontier_inner_on T hT2 (Nat.zero_le _) (by omega) (by omega) hX hin
+          -- all leaves consumed
+          have hXS : XS.length = X.length := by
+            rw [hxs]; have : max s 0 = s := by omega
+            rw [this]; omega
+          have hX' : X' = [] := by
+            apply List.eq_nil_of_length_eq_zero
+            have := congrArg List.length hXe
+            simp at this; omega
+          subst hX'
+          simp only [List.nil_append] at hXe
+          subst hXe
+          -- sibling counts
+          simp only [Nat.zero_le, ↓reduceIte, Nat.sub_zero] at hpl hpr
+          rw [nLeft_popcount T T s (Nat.le_refl _) (by omega)] at hpl
+          obtain ⟨tt, hTt, hz⟩ := computeTreeSize_char (by omega) hts
+          have hdm : X.length + s - 1 = (X.length + s - 1) / 2 ^ tt * 2 ^ tt + (X.length + s - 1) % 2 ^ tt := by
+            have := Nat.div_add_mod (X.length + s - 1) (2 ^ tt)
+            rw [Nat.mul_comm] at this; omega
+          have hes : s + X.length - 1 = X.length + s - 1 := by omega
+          rw [hes] at hTt hz
+          have hpos : 0 < 2 ^ tt := Nat.two_pow_pos tt
+          have hmodlt : (X.length + s - 1) % 2 ^ tt < 2 ^ tt := Nat.mod_lt _ hpos
+          have hnr : nRight T (X.length + s - 1) T = P.length - computeNumLeftSiblings s := by
+            conv => lhs; rw [hdm, hTt]
+            rw [nRight_fill _ _ tt _ hmodlt (by rw [← hTt]; exact Nat.le_refl _)]
+            rw [← hz]
+            conv => rhs; rw [hdm]
+            rw [zerosLow_add_mul tt _ _ hmodlt]
+          rw [hnr] at hpr
+          have hP' : P' = [] := by
+            apply List.eq_nil_of_length_eq_zero
+            have := congrArg List.length hPe
+            simp at this; omega
+          subst hP'
+          simp only [List.nil_append] at hPe
+          have hPL : PL = P.take (computeNumLeftSiblings s) := by
+            rw [hPe, ← hpl]; simp
+          have hPR : PR = P.drop (computeNumLeftSiblings s) := by
+            rw [hPe, ← hpl]; simp
+          refine ⟨t, by rw [hfr, hPL, hPR], hev, ?_⟩
+          intro y hy
+          unfold proofInputs
+          simp only [h0, ↓reduceIte, hnt', hnl, hts]
+          exact hinp y hy
+        · cases h
+
+
+
+theorem rootInputs_fuel {H : HashFn} {ign : Bool} : ∀ (f f' : Nat) (L : List NsHash), L.length < f → L.length < f' →
+    rootInputs H ign f L = rootInputs H ign f' L := by
+  intro f
+  induction f with
+  | zero => intro f' L h; omega
+  | succ f ih =>
+    intro f' L h h'
+    obtain ⟨g, rfl⟩ : ∃ g, f' = g + 1 := ⟨f' - 1, by omega⟩
+    match L, h, h' with
+    | [], _, _ => rfl
+    | [x], _, _ => rfl
+    | a :: b :: rest, h, h' =>
+      obtain ⟨m, hm, hmlt, _⟩ := nextSmallerPo2_spec (a :: b :: rest).length (by simp)
+      have h1 : 1 ≤ nextSmallerPo2 (a :: b :: rest).length := by rw [hm]; exact Nat.one_le_two_pow
+      have h2 : nextSmallerPo2 (a :: b :: rest).length < (a :: b :: rest).length := by rw [hm]; exact hmlt
+      unfold rootInputs
+      simp only
+      rw [ih g _ (by rw [List.length_take]; omega) (by rw [List.length_take]; omega),
+        ih g _ (by rw [List.length_drop]; omega) (by rw [List.length_drop]; omega),
+        computeRootAux_fuel f g _ (by rw [List.length_take]; omega) (by rw [List.length_take]; omega),
+        computeRootAux_fuel f g _ (by rw [List.length_drop]; omega) (by rw [List.length_drop]; omega)]
+
+/-- `Segs` whose segment root computations only hash inputs in `S` -/
+inductive SegsOn (H : HashFn) (ign : Bool) (S : Bytes → Prop) : List NsHash → List NsHash → Prop where
+  | nil : SegsOn H ign S [] []
+  | cons {seg rest : List NsHash} {r : NsHash} {rs : List NsHash} :
+      seg ≠ [] → computeRoot H ign seg = .ok r → (∀ y ∈ rootInputs H ign (seg.length + 1) seg, S y) →
+      SegsOn H ign S rest rs → SegsOn H ign S (seg ++ rest) (r :: rs)
+
+theorem SegsOn.segs {H : HashFn} {ign : Bool} {S : Bytes → Prop} {M roots : List NsHash} (h : SegsOn H ign S M roots) :
+    Segs H ign M roots := by
+  induction h with
+  | nil => exact Segs.nil
+  | cons hne hr _ _ ih => exact Segs.cons hne hr ih
+
+theorem SegsOn.append {H : HashFn} {ign : Bool} {S : Bytes → Prop} {M1 M2 r1 r2 : List NsHash}
+    (h1 : SegsOn H ign S M1 r1) (h2 : SegsOn H ign S M2 r2) : SegsOn H ign S (M1 ++ M2) (r1 ++ r2) := by
+  induction h1 with
+  | nil => simpa using h2
+  | cons hne hr hT _ ih => rw [List.append_assoc]; exact SegsOn.cons hne hr hT ih
+
+theorem SegsOn.single {H : HashFn} {ign : Bool} {S : Bytes → Prop} {seg : List NsHash} {r : NsHash} (hne : seg ≠ [])
+    (hr : computeRoot H ign seg = .ok r) (hT : ∀ y ∈ rootInputs H ign (seg.length + 1) seg, S y) :
+    SegsOn H ign S seg [r] := by
+  have := SegsOn.cons hne hr hT (SegsOn.nil (H := H) (ign := ign) (S := S))
+  simpa using this
+
+theorem SegsOn.split {H : HashFn} {ign : Bool} {S : Bytes → Prop} : ∀ (r1 : List NsHash) {M r2 : List NsHash},
+    SegsOn H ign S M (r1 ++ r2) → ∃ M1 M2, M = M1 ++ M2 ∧ SegsOn H ign S M1 r1 ∧ SegsOn H ign S M2 r2 := by
+  intro r1
+  induction r1 with
+  | nil => intro M r2 h; exact ⟨[], M, rfl, SegsOn.nil, h⟩
+  | cons a t ih =>
+    intro M r2 h
+    cases h with
+    | @cons seg rest _ _ hne hr hT hrest =>
+      obtain ⟨M1, M2, he, h1, h2⟩ := ih hrest
+      exact ⟨seg ++ M1, M2, by rw [he, List.append_assoc], SegsOn.cons hne hr hT h1, h2⟩
+
+theorem PT.inputs_node {H : HashFn} {ign : Bool} {l r : PT} {a b : NsHash} (ha : l.eval H ign = .ok a)
+    (hb : r.eval H ign = .ok b) :
+    (PT.node l r).inputs H ign = l.inputs H ign ++ r.inputs H ign ++ [nodeInput a b] := by
+  conv => lhs; unfold PT.inputs
+  simp only [ha, hb]
+
+/-- **agreement of a proof tree with the real tree** under collision-freeness relative to the inputs hashed by the two
+    evaluations -/
+theorem agree_on {H : HashFn} {S : Bytes → Prop} (hk : HashOKOn H S) {ign ign' : Bool} :
+    ∀ (t : PT) (fuel : Nat) (L : List NsHash) (r : NsHash),
+    L ≠ [] → L.length < fuel → AllLeafOn H S L → (∀ x ∈ t.frontier, x.WF) →
+    (∀ y ∈ t.inputs H ign, S y) → (∀ y ∈ rootInputs H ign' fuel L, S y) →
+    t.eval H ign = .ok r → computeRootAux H ign' fuel L = .ok r → SegsOn H ign' S L t.frontier := by
+  intro t
+  induction t with
+  | leaf x =>
+    intro fuel L r hne hf _ _ _ hT e e'
+    simp [PT.eval] at e
+    subst e
+    have : computeRoot H ign' L = .ok x := by
+      unfold computeRoot; rw [computeRootAux_fuel _ fuel L (by omega) hf]; exact e'
+    exact SegsOn.single hne this (by rw [rootInputs_fuel _ fuel L (by omega) hf]; exact hT)
+  | node l rt ihl ihr =>
+    intro fuel L r hne hf al w hV hT e e'
+    obtain ⟨a, b, ha, hb, hn⟩ := PT.eval_node e
+    have hPI := PT.inputs_node ha hb
+    have hVn : S (nodeInput a b) := hV _ (by rw [hPI]; simp)
+    obtain ⟨f, rfl⟩ : ∃ f, fuel = f + 1 := ⟨fuel - 1, by omega⟩
+    match L, hne, hf, al, hT, e' with
+    | [y], _, _, al, _, e' =>
+      exfalso
+      simp [computeRootAux] at e'
+      subst e'
+      obtain ⟨ns, d, _, hy, hS⟩ := al y (by simp)
+      rw [hy] at hn
+      exact leaf_ne_node_on hk.inj hn hS hVn rfl
+    | a0 :: b0 :: rest, _, hf, al, hT, e' =>
+      obtain ⟨l', rr', hl', hr', hn', hRI⟩ := rootInputs_cons2 e'
+      obtain ⟨m, hm, hmlt, _⟩ := nextSmallerPo2_spec (a0 :: b0 :: rest).length (by simp)
+      have h1 : 1 ≤ nextSmallerPo2 (a0 :: b0 :: rest).length := by rw [hm]; exact Nat.one_le_two_pow
+      have h2 : nextSmallerPo2 (a0 :: b0 :: rest).length < (a0 :: b0 :: rest).length := by rw [hm]; exact hmlt
+      have wa := PT.eval_WF hk.hlen l (fun x hx => w x (by simp [PT.frontier, hx])) ha
+      have wb := PT.eval_WF hk.hlen rt (fun x hx => w x (by simp [PT.frontier, hx])) hb
+      have wl' := computeRootAux_WF hk.hlen _ (AllLeaf.allWF hk.hlen (al.take _).allLeaf) hl'
+      have wr' := computeRootAux_WF hk.hlen _ (AllLeaf.allWF hk.hlen (al.drop _).allLeaf) hr'
+      obtain ⟨rfl, rfl⟩ := hashNodes_hash_inj_on hk.inj wa wb wl' wr' hn hn' hVn (hT _ (by rw [hRI]; simp)) rfl
+      have htne : (a0 :: b0 :: rest).take (nextSmallerPo2 (a0 :: b0 :: rest).length) ≠ [] := by
+        intro h; have := congrArg List.length h; rw [List.length_take, List.length_nil] at this; omega
+      have hdne : (a0 :: b0 :: rest).drop (nextSmallerPo2 (a0 :: b0 :: rest).length) ≠ [] := by
+        intro h; have := congrArg List.length h; rw [List.length_drop, List.length_nil] at this; omega
+      have s1 := ihl f _ _ htne (by rw [List.length_take]; omega) (al.take _)
+        (fun x hx => w x (by simp [PT.frontier, hx]))
+        (fun y hy => hV y (by rw [hPI]; exact List.mem_append_left _ (List.mem_append_left _ hy)))
+        (fun y hy => hT y (by rw [hRI]; exact List.mem_append_left _ (List.mem_append_left _ hy))) ha hl'
+      have s2 := ihr f _ _ hdne (by rw [List.length_drop]; omega) (al.drop _)
+        (fun x hx => w x (by simp [PT.frontier, hx]))
+        (fun y hy => hV y (by rw [hPI]; exact List.mem_append_left _ (List.mem_append_right _ hy)))
+        (fun y hy => hT y (by rw [hRI]; exact List.mem_append_left _ (List.mem_append_right _ hy))) hb hr'
+      have := s1.append s2
+      rw [List.take_append_drop] at this
+      exact this
+
+/-- segments whose roots are leaf hashes are single leaves -/
+theorem SegsOn.leaves {H : HashFn} {S : Bytes → Prop} (hi : NoCollOn H S) {ign : Bool} : ∀ {X M : List NsHash},
+    SegsOn H ign S M X → (∀ x ∈ X, IsLeafOn H S x) → M = X := by
+  intro X
+  induction X with
+  | nil => intro M h _; exact h.segs.nil_roots
+  | cons x t ih =>
+    intro M h lx
+    cases h with
+    | @cons seg rest _ _ hne hr hT hrest =>
+      have hrest' := ih hrest (fun y hy => lx y (List.mem_cons_of_mem _ hy))
+      have hseg : seg = [x] := by
+        match seg, hne, hr, hT with
+        | [y], _, hr, _ => simp [computeRoot, computeRootAux] at hr; rw [hr]
+        | a :: b :: rest', _, hr, hT =>
+          exfalso
+          obtain ⟨l, rr, _, _, hn, hRI⟩ := rootInputs_cons2 hr
+          obtain ⟨ns, d, _, hx, hS⟩ := lx x (by simp)
+          rw [hx] at hn
+          exact leaf_ne_node_on hi hn hS (hT _ (by rw [hRI]; simp)) rfl
+      rw [hseg, hrest']; rfl
+
+/-- a non-empty list of leaf hashes never has the empty-tree root -/
+theorem computeRoot_ne_empty_on {H : HashFn} {S : Bytes → Prop} (hi : NoCollOn H S) (hE : S []) {ign : Bool}
+    {L : List NsHash} {r : NsHash} (hne : L ≠ []) (al : AllLeafOn H S L)
+    (hT : ∀ y ∈ rootInputs H ign (L.length + 1) L, S y) (h : computeRoot H ign L = .ok r) : r ≠ emptyRoot H := by
+  intro he
+  match L, hne, al, hT, h with
+  | [x], _, al, _, h =>
+    simp [computeRoot, computeRootAux] at h
+    obtain ⟨ns, d, _, hx, hS⟩ := al x (by simp)
+    rw [← h, hx] at he
+    exact emptyRoot_ne_leaf_on hi hE hS (congrArg NsHash.hash he).symm
+  | a :: b :: rest, _, _, hT, h =>
+    obtain ⟨l, rr, _, _, hn, hRI⟩ := rootInputs_cons2 h
+    rw [he] at hn
+    exact emptyRoot_ne_node_on hi hn hE (hT _ (by rw [hRI]; simp)) rfl
+
+/-- the frontier decomposition obtained from an accepted non-trivial range proof against the real root -/
+theorem accepted_block_on {H : HashFn} {S : Bytes → Prop} (hk : HashOKOn H S) {ign : Bool} {L : List NsHash}
+    {root : NsHash} {X P : List NsHash} {s : Nat}
+    (hne : L ≠ []) (al : AllLeafOn H S L) (hroot : computeRoot H true L = .ok root)
+    (hT : ∀ y ∈ rootInputs H true (L.length + 1) L, S y) (hV : ∀ y ∈ proofInputs H ign X P s, S y)
+    (wp : ∀ x ∈ P, x.WF) (wx : ∀ x ∈ X, x.WF)
+    (hX : 1 ≤ X.length) (hnt : ¬ (X.length = 1 ∧ P = [])) (hu : s + X.length ≤ U32_MAX + 1)
+    (h : checkRangeProof H ign root X P s = .ok ()) :
+    computeNumLeftSiblings s ≤ P.length ∧ ∃ ML MX MR, L = ML ++ MX ++ MR ∧
+      SegsOn H true S ML (P.take (computeNumLeftSiblings s)) ∧ SegsOn H true S MX X ∧
+      SegsOn H true S MR (P.drop (computeNumLeftSiblings s)) := by
+  obtain ⟨hnl, t, hfr, hev, hinp⟩ := checkRangeProof_frontier_on hX hnt hu h
+  refine ⟨hnl, ?_⟩
+  have wf : ∀ x ∈ t.frontier, x.WF := by
+    intro x hx
+    rw [hfr] at hx
+    rcases List.mem_append.mp hx with h1 | h1
+    · rcases List.mem_append.mp h1 with h2 | h2
+      · exact wp x (List.mem_of_mem_take h2)
+      · exact wx x h2
+    · exact wp x (List.mem_of_mem_drop h1)
+  have hseg := agree_on hk t (L.length + 1) L root hne (by omega) al wf (fun y hy => hV y (hinp y hy)) hT hev hroot
+  rw [hfr, List.append_assoc] at hseg
+  obtain ⟨ML, M2, hL, hsl, h2⟩ := SegsOn.split _ hseg
+  obtain ⟨MX, MR, hM2, hsx, hsr⟩ := SegsOn.split _ h2
+  exact ⟨ML, MX, MR, by rw [hL, hM2, List.append_assoc], hsl, hsx, hsr⟩
+
+/-- inputs hashed by `verify_complete_namespace`: the claimed leaves' preimages and the `hash_nodes` calls of the range-proof
+    check (over the claimed leaves for a presence proof, over the proof's leaf hash for an absence proof) -/
+def vcnInputs (H : HashFn) (p : NsProof) (datas : List Bytes) (ns : Bytes) : List Bytes :=
+  datas.map (leafInput ns) ++
+    proofInputs H p.ignoreMaxNs (if p.isAbsence then p.leaf.toList else datas.map (hashLeaf H ns)) p.siblings p.start
+
+/-- absence proofs: an accepted proof means no leaf of the tree has the namespace -/
+theorem absence_sound_on {H : HashFn} {S : Bytes → Prop} (hk : HashOKOn H S) {ign : Bool} {L : List NsHash} {root : NsHash} {P : List NsHash} {s : Nat}
+    {lf : NsHash} {ns : Bytes}
+    (hne : L ≠ []) (al : AllLeafOn H S L) (hs : SortedNs L) (hroot : computeRoot H true L = .ok root)
+    (hT : ∀ y ∈ rootInputs H true (L.length + 1) L, S y) (hV : ∀ y ∈ proofInputs H ign [lf] P s, S y)
+    (wp : ∀ x ∈ P, x.WF) (wlf : lf.WF) (hstart : s ≤ U32_MAX) (hns : ns.length = NS_SIZE)
+    (hcont : root.contains H ns = true) (hlt : leB lf.minNs ns = false)
+    (hleft : ∀ sib, computeNumLeftSiblings s > 0 → P[computeNumLeftSiblings s - 1]? = some sib → leB ns sib.maxNs = false)
+    (h : checkRangeProof H ign root [lf] P s = .ok ()) : ∀ y ∈ L, y.minNs ≠ ns := by
+  have hleaf := AllLeaf.leafNs al.allLeaf
+  by_cases hP : P = []
+  · -- single-node tree: the "leaf" is the root itself
+    subst hP
+    exfalso
+    unfold checkRangeProof at h
+    simp only [List.length_singleton, Nat.one_ne_zero, ↓reduceIte, List.isEmpty_nil, and_self] at h
+    split at h
+    · rename_i hc
+      simp only [List.head?_cons, Bool.and_eq_true, beq_iff_eq, Option.some.injEq] at hc
+      obtain ⟨rfl, _⟩ := hc
+      unfold NsHash.contains at hcont
+      simp only [Bool.and_eq_true] at hcont
+      rw [hcont.1.1] at hlt; cases hlt
+    · cases h
+  · obtain ⟨hnl, ML, MX, MR, hL, hsl, hsx, hsr⟩ := accepted_block_on hk hne al hroot hT hV wp
+      (by intro x hx; simp at hx; subst hx; exact wlf) (by simp) (by intro hc; exact hP hc.2) (by simp; omega) h
+    obtain ⟨hxne, hxroot⟩ := hsx.segs.single_inv
+    have hs' := hs
+    unfold SortedNs at hs'
+    rw [hL, List.append_assoc, List.pairwise_append] at hs'
+    obtain ⟨hsML, hsrest, _⟩ := hs'
+    rw [List.pairwise_append] at hsrest
+    obtain ⟨hsMX, hsMR, hcrossXR⟩ := hsrest
+    have hmemL : ∀ y, y ∈ L → y ∈ ML ∨ y ∈ MX ∨ y ∈ MR := by
+      intro y hy; rw [hL] at hy; simp only [List.mem_append] at hy
+      rcases hy with (h | h) | h
+      · exact Or.inl h
+      · exact Or.inr (Or.inl h)
+      · exact Or.inr (Or.inr h)
+    have hsub : ∀ y, (y ∈ ML ∨ y ∈ MX ∨ y ∈ MR) → y ∈ L := by
+      intro y hy; rw [hL]; simp only [List.mem_append]
+      rcases hy with h | h | h
+      · exact Or.inl (Or.inl h)
+      · exact Or.inl (Or.inr h)
+      · exact Or.inr h
+    have RX := computeRoot_range hxne (fun x hx => hleaf x (hsub x (Or.inr (Or.inl hx)))) hsMX hxroot
+    have hltns : ltB ns lf.minNs = true := leB_false_iff.mp hlt
+    -- ns is not the parity namespace
+    have hnm : ns ≠ maxNsId := by
+      intro he
+      have := leB_maxNsId NS_SIZE lf.minNs wlf.1
+      rw [he] at hltns
+      unfold leB at this
+      rw [show List.replicate NS_SIZE (255 : UInt8) = maxNsId from rfl, hltns] at this
+      cases this
+    intro y hy heq
+    rcases hmemL y hy with hm | hm | hm
+    · -- left of the leaf
+      by_cases h0 : computeNumLeftSiblings s = 0
+      · rw [h0] at hsl
+        simp at hsl
+        have := hsl.segs.nil_roots
+        subst this; simp at hm
+      · have hlt' : computeNumLeftSiblings s - 1 < P.length := by omega
+        have htk : P.take (computeNumLeftSiblings s) = P.take (computeNumLeftSiblings s - 1) ++ [P[computeNumLeftSiblings s - 1]] := by
+          have := take_succ_last hlt'
+          have e : computeNumLeftSiblings s - 1 + 1 = computeNumLeftSiblings s := by omega
+          rw [e] at this; exact this
+        rw [htk] at hsl
+        have hchk := hleft _ (by omega) (List.getElem?_eq_getElem hlt')
+        exact left_none hsl.segs (fun x hx => hleaf x (hsub x (Or.inl hx))) hsML hns hnm (leB_false_iff.mp hchk) y hm heq
+    · have := RX.minLe y hm
+      rw [heq] at this
+      rw [this] at hlt; cases hlt
+    · obtain ⟨z, hz, hze⟩ := RX.minMem
+      have := hcrossXR z hz y hm
+      rw [← hze, heq] at this
+      rw [this] at hlt; cases hlt
+
+/-- presence proofs: an accepted complete-namespace proof means the leaves are exactly the tree's leaves of the namespace -/
+theorem presence_sound_on {H : HashFn} {S : Bytes → Prop} (hk : HashOKOn H S) {ign : Bool} {L : List NsHash} {root : NsHash} {P : List NsHash} {s : Nat}
+    {ns : Bytes} {datas : List Bytes}
+    (hne : L ≠ []) (al : AllLeafOn H S L) (hs : SortedNs L) (hroot : computeRoot H true L = .ok root)
+    (hT : ∀ y ∈ rootInputs H true (L.length + 1) L, S y)
+    (hV : ∀ y ∈ proofInputs H ign (datas.map (hashLeaf H ns)) P s, S y) (hXin : ∀ d ∈ datas, S (leafInput ns d))
+    (wp : ∀ x ∈ P, x.WF) (hend : s + datas.length ≤ U32_MAX + 1) (hns : ns.length = NS_SIZE)
+    (hcont : root.contains H ns = true) (hd : 1 ≤ datas.length)
+    (h : nmtCheckRangeProof H ign root (datas.map (hashLeaf H ns)) P s = .ok true) :
+    L.filter (fun x => x.minNs == ns) = datas.map (hashLeaf H ns) := by
+  have hleaf := AllLeaf.leafNs al.allLeaf
+  have hXlen : (datas.map (hashLeaf H ns)).length = datas.length := by simp
+  have hXleaf : ∀ x ∈ datas.map (hashLeaf H ns), IsLeafOn H S x := by
+    intro x hx; obtain ⟨d, hd', rfl⟩ := List.mem_map.mp hx; exact ⟨ns, d, hns, rfl, hXin d hd'⟩
+  have hXns : ∀ x ∈ datas.map (hashLeaf H ns), x.minNs = ns := by
+    intro x hx; obtain ⟨d, _, rfl⟩ := List.mem_map.mp hx; rfl
+  have RL := computeRoot_range hne hleaf hs hroot
+  unfold nmtCheckRangeProof at h
+  have h0 : ¬ ((datas.map (hashLeaf H ns)).length = 0) := by rw [hXlen]; omega
+  simp only [h0, ↓reduceIte] at h
+  by_cases htriv : (datas.map (hashLeaf H ns)).length = 1 ∧ P.isEmpty = true
+  · -- single-leaf tree
+    simp only [htriv, and_self, ↓reduceIte] at h
+    split at h
+    · rename_i hc
+      simp only [Bool.and_eq_true, beq_iff_eq] at hc
+      match hX : datas.map (hashLeaf H ns), htriv.1 with
+      | [x], _ =>
+        rw [hX] at hc
+        simp only [List.head?_cons, Option.some.injEq] at hc
+        obtain ⟨rfl, _⟩ := hc
+        -- the real tree is that single leaf
+        have hLx : L = [x] := by
+          match L, hne, hroot, al, hT with
+          | [y], _, hroot, _, _ => simp [computeRoot, computeRootAux] at hroot; rw [hroot]
+          | a :: b :: rest, _, hroot, _, hT =>
+            exfalso
+            obtain ⟨l, rr, _, _, hn, hRI⟩ := rootInputs_cons2 hroot
+            obtain ⟨ns', d', _, hx, hS⟩ := hXleaf x (by rw [hX]; simp)
+            rw [hx] at hn
+            exact leaf_ne_node_on hk.inj hn hS (hT _ (by rw [hRI]; simp)) rfl
+        rw [hLx]
+        have := hXns x (by rw [hX]; simp)
+        simp [this]
+    · cases h
+  · simp only [htriv, ↓reduceIte] at h
+    split at h
+    · cases h
+    · split at h
+      · cases h
+      · rename_i complete hcomp
+        split at h
+        · cases h
+        · rename_i hchk
+          simp only [Except.ok.injEq] at h
+          subst h
+          have hnt : ¬ ((datas.map (hashLeaf H ns)).length = 1 ∧ P = []) := by
+            intro hc; exact htriv ⟨hc.1, by simp [hc.2]⟩
+          obtain ⟨hnl, ML, MX, MR, hL, hsl, hsx, hsr⟩ := accepted_block_on hk hne al hroot hT hV wp
+            (fun x hx => (hXleaf x hx).WF hk.hlen) (by rw [hXlen]; exact hd) hnt (by rw [hXlen]; exact hend) hchk
+          have hsub : ∀ y, (y ∈ ML ∨ y ∈ MX ∨ y ∈ MR) → y ∈ L := by
+            intro y hy; rw [hL]; simp only [List.mem_append]
+            rcases hy with h | h | h
+            · exact Or.inl (Or.inl h)
+            · exact Or.inl (Or.inr h)
+            · exact Or.inr h
+          have hMX : MX = datas.map (hashLeaf H ns) :=
+            SegsOn.leaves hk.inj hsx hXleaf
+          have hs' := hs
+          unfold SortedNs at hs'
+          rw [hL, List.append_assoc, List.pairwise_append] at hs'
+          obtain ⟨hsML, hsrest, _⟩ := hs'
+          rw [List.pairwise_append] at hsrest
+          obtain ⟨_, hsMR, _⟩ := hsrest
+          -- unpack the completeness check
+          unfold checkProofCompleteness at hcomp
+          have hnp : ¬ (computeNumLeftSiblings s ≠ 0 ∧ P.length < computeNumLeftSiblings s) := by omega
+          simp only [hnp, ↓reduceIte, Except.ok.injEq, Bool.and_eq_true] at hcomp
+          obtain ⟨hc1, hc2⟩ := hcomp
+          obtain ⟨d0, dt, hdat⟩ : ∃ d0 dt, datas = d0 :: dt := by
+            cases datas with
+            | nil => simp at hd
+            | cons a b => exact ⟨a, b, rfl⟩
+          have hhead : (datas.map (hashLeaf H ns)).head? = some (hashLeaf H ns d0) := by rw [hdat]; rfl
+          have hlast : ∃ dl, (datas.map (hashLeaf H ns)).getLast? = some (hashLeaf H ns dl) := by
+            have hne' : datas ≠ [] := by rw [hdat]; simp
+            exact ⟨datas.getLast hne', by rw [List.getLast?_map, List.getLast?_eq_some_getLast hne']; rfl⟩
+          obtain ⟨dl, hlast⟩ := hlast
+          refine (filter_of_block (by rw [hL, hMX]) ?_ ?_ hXns)
+          · -- left part
+            by_cases hz : computeNumLeftSiblings s = 0
+            · rw [hz] at hsl; simp at hsl
+              have := hsl.segs.nil_roots
+              subst this; intro y hy; simp at hy
+            · have hlt' : computeNumLeftSiblings s - 1 < P.length := by omega
+              have htk : P.take (computeNumLeftSiblings s) = P.take (computeNumLeftSiblings s - 1) ++ [P[computeNumLeftSiblings s - 1]] := by
+                have := take_succ_last hlt'
+                have e : computeNumLeftSiblings s - 1 + 1 = computeNumLeftSiblings s := by omega
+                rw [e] at this; exact this
+              rw [htk] at hsl
+              simp only [ne_eq, hz, not_false_eq_true, ↓reduceIte, List.getElem?_eq_getElem hlt', hhead] at hc1
+              have hchk1 : ltB (P[computeNumLeftSiblings s - 1]).maxNs ns = true := hc1
+              by_cases hnm : ns = maxNsId
+              · -- parity namespace: the whole tree is parity, so the left sibling's max is parity too: contradiction
+                exfalso
+                unfold NsHash.contains at hcont
+                simp only [Bool.and_eq_true] at hcont
+                have wroot := computeRoot_WF hk.hlen (AllLeaf.allWF hk.hlen al.allLeaf) hroot
+                have hrm : root.maxNs = maxNsId := eq_maxNsId_of_le wroot.2.1 (by rw [← hnm]; exact hcont.1.2)
+                have hall : ∀ x ∈ L, x.minNs = maxNsId := by
+                  intro x hx
+                  apply Classical.byContradiction
+                  intro hne'
+                  exact RL.maxNotAll ⟨x, hx, hne'⟩ hrm
+                obtain ⟨M1, seg, hM, _, h2⟩ := Segs.split _ hsl.segs
+                obtain ⟨hsne, hsroot⟩ := h2.single_inv
+                have hsML' := hsML
+                rw [hM, List.pairwise_append] at hsML'
+                have Rs := computeRoot_range hsne (fun x hx => hleaf x (hsub x (Or.inl (by rw [hM]; exact List.mem_append_right _ hx))))
+                  hsML'.2.1 hsroot
+                have := Rs.maxAll (fun x hx => hall x (hsub x (Or.inl (by rw [hM]; exact List.mem_append_right _ hx))))
+                rw [this, hnm] at hchk1
+                exact ltB_irrefl' hchk1
+              · exact left_none hsl.segs (fun x hx => hleaf x (hsub x (Or.inl hx))) hsML hns hnm hchk1
+          · -- right part
+            cases hdr : P.drop (computeNumLeftSiblings s) with
+            | nil =>
+              rw [hdr] at hsr
+              have := hsr.segs.nil_roots
+              subst this; intro y hy; simp at hy
+            | cons r rest =>
+              rw [hdr] at hsr
+              have hlen2 : P.length - computeNumLeftSiblings s ≠ 0 := by
+                have := congrArg List.length hdr
+                simp only [List.length_drop, List.length_cons] at this; omega
+              have hget : P[computeNumLeftSiblings s]? = some r := by
+                have := congrArg (fun l => l[0]?) hdr
+                simpa using this
+              simp only [ne_eq, hlen2, not_false_eq_true, ↓reduceIte, hget, hlast] at hc2
+              have hchk2 : ltB ns r.minNs = true := hc2
+              exact right_none hsr.segs (fun x hx => hleaf x (hsub x (Or.inr (Or.inr hx)))) hsMR hchk2
+
+
+/-- **Soundness of `verify_complete_namespace`** against the root of a namespace-sorted list of leaf hashes whose
+    range covers the namespace: accepted raw leaves are exactly the tree's leaves of that namespace (none for an
+    absence proof).  `hwpt` is the proof-type/emptiness agreement that `RowNamespaceData::verify` checks first. -/
+theorem vcn_sound_on {H : HashFn} {S : Bytes → Prop} (hk : HashOKOn H S) (hE : S []) {L : List NsHash} {root : NsHash} {p : NsProof} {ns : Bytes} {datas : List Bytes}
+    (hne : L ≠ []) (al : AllLeafOn H S L) (hs : SortedNs L) (hroot : computeRoot H true L = .ok root)
+    (hT : ∀ y ∈ rootInputs H true (L.length + 1) L, S y) (hV : ∀ y ∈ vcnInputs H p datas ns, S y)
+    (wp : ∀ x ∈ p.siblings, x.WF) (wl : ∀ l, p.leaf = some l → l.WF)
+    (hstart : p.start ≤ U32_MAX) (hend : p.end_ ≤ U32_MAX) (hns : ns.length = NS_SIZE)
+    (hwpt : datas.isEmpty = p.isAbsence) (hcont : root.contains H ns = true)
+    (h : verifyCompleteNamespace H p root datas ns = .ok ()) :
+    L.filter (fun x => x.minNs == ns) = datas.map (hashLeaf H ns) := by
+  unfold verifyCompleteNamespace at h
+  split at h
+  · cases h
+  · rename_i hlen
+    unfold verifyNamespace at h
+    have hnotempty : root.isEmptyRoot H = false := by
+      unfold NsHash.isEmptyRoot
+      have := computeRoot_ne_empty_on hk.inj hE hne al hT hroot
+      simpa using this
+    simp only [hnotempty, Bool.false_and, Bool.false_eq_true, ↓reduceIte] at h
+    by_cases hab : p.isAbsence = true
+    · -- absence proof
+      have hd : datas = [] := by
+        rw [hab] at hwpt
+        cases datas with
+        | nil => rfl
+        | cons a b => simp at hwpt
+      subst hd
+      simp only [hab, ↓reduceIte, hcont, Bool.not_true, Bool.false_eq_true] at h
+      cases hleaf : p.leaf with
+      | none => simp [hleaf] at h
+      | some lf =>
+        simp only [hleaf, List.isEmpty_nil, Bool.not_true, Bool.false_eq_true, ↓reduceIte] at h
+        by_cases hlt : leB lf.minNs ns = true
+        · simp [hlt] at h
+        · simp only [hlt, Bool.false_eq_true, ↓reduceIte] at h
+          by_cases hnp : computeNumLeftSiblings p.start > 0 ∧ p.siblings.length < computeNumLeftSiblings p.start
+          · simp [hnp] at h
+          · simp only [hnp, ↓reduceIte] at h
+            generalize hbad : (if computeNumLeftSiblings p.start > 0 then
+                match p.siblings[computeNumLeftSiblings p.start - 1]? with
+                | some sib => leB ns sib.maxNs
+                | none => false
+              else false) = bad at h
+            cases bad with
+            | true => simp at h
+            | false =>
+              simp only [Bool.false_eq_true, ↓reduceIte] at h
+              have hnone := absence_sound_on hk hne al hs hroot hT (fun y hy => hV y (by unfold vcnInputs; simp only [hab, ↓reduceIte, hleaf, Option.toList_some]; exact List.mem_append_right _ hy)) wp (wl lf hleaf) hstart hns hcont
+                (by simpa using hlt)
+                (by
+                  intro sib hpos hget
+                  have := hbad
+                  simp only [hpos, ↓reduceIte, hget] at this
+                  exact this) h
+              simp only [List.map_nil]
+              rw [List.filter_eq_nil_iff]
+              intro a ha
+              simpa using hnone a ha
+    · -- presence proof
+      have hab' : p.isAbsence = false := by simpa using hab
+      have hdne : datas.isEmpty = false := by rw [hwpt, hab']
+      have hd1 : 1 ≤ datas.length := by
+        cases datas with
+        | nil => simp at hdne
+        | cons a b => simp
+      simp only [hab', Bool.false_eq_true, ↓reduceIte, hcont, Bool.not_true] at h
+      have hlen' : datas.length = p.rangeLen := by
+        simp only [hab', Bool.not_false, Bool.true_and, decide_eq_true_eq, ne_eq, Decidable.not_not] at hlen
+        exact hlen
+      split at h
+      · cases h
+      · rename_i complete hck
+        split at h
+        · rename_i hc
+          subst hc
+          have hend' : p.start + datas.length ≤ U32_MAX + 1 := by
+            unfold NsProof.rangeLen at hlen'; omega
+          exact presence_sound_on hk hne al hs hroot hT (fun y hy => hV y (by unfold vcnInputs; simp only [hab', Bool.false_eq_true, ↓reduceIte]; exact List.mem_append_right _ hy)) (fun d hd' => hV _ (by unfold vcnInputs; exact List.mem_append_left _ (List.mem_map.mpr ⟨d, hd', rfl⟩))) wp hend' hns hcont hd1 hck
+        · cases h
+
+
+
+
 end Lumina.Proofs.NmtRange
